@@ -3,11 +3,16 @@ package props
 // C18 — the agent makes its node's peers match what the pool says.
 
 import (
+	"bytes"
 	"context"
 	"errors"
 	"fmt"
+	"io"
+	"net/http"
+	"net/http/httptest"
 	"sort"
 	"strings"
+	"sync"
 	"testing"
 	"time"
 
@@ -96,6 +101,41 @@ func c18Case(rt *rapid.T, rec *vt.Rec, viaRPCNode bool) {
 		node = rn
 	}
 	sp := &scriptPool{}
+	// the pool as the agent reaches it: the scripted pool itself, or (in the real-time variant) the scripted pool
+	// behind the real HTTP server and the library's HTTP client, as `vipnode agent http://...` reaches a pool; there a
+	// keep-alive can also fail because an intermediary answers in its place (empty 200, 204, an HTML error page)
+	var thePool pool.Pool = sp
+	httpFault := ""
+	var httpMu sync.Mutex
+	overHTTP := viaRPCNode && rapid.Bool().Draw(rt, "poolOverHTTP")
+	if overHTTP {
+		inner := &jsonrpc2.HTTPServer{}
+		if err := inner.Server.Register("vipnode_", &ScriptPoolRPC{sp}); err != nil {
+			rt.Fatal(err)
+		}
+		ts := httptest.NewServer(http.HandlerFunc(func(w http.ResponseWriter, r *http.Request) {
+			body, _ := io.ReadAll(r.Body)
+			r.Body = io.NopCloser(bytes.NewReader(body))
+			httpMu.Lock()
+			f := httpFault
+			httpMu.Unlock()
+			if f == "" || !bytes.Contains(body, []byte(`"vipnode_update"`)) {
+				inner.ServeHTTP(w, r)
+				return
+			}
+			switch f {
+			case "empty200":
+				w.WriteHeader(200)
+			case "status204":
+				w.WriteHeader(204)
+			case "html":
+				w.Header().Set("content-type", "text/html")
+				w.Write([]byte("<html>502 Bad Gateway</html>"))
+			}
+		}))
+		defer ts.Close()
+		thePool = pool.Remote(&jsonrpc2.HTTPService{Endpoint: ts.URL}, nodeIdent(0).key)
+	}
 	a := &agent.Agent{EthNode: node, NumHosts: target, StrictPeers: strict, UpdateInterval: time.Hour}
 	nRounds := rapid.IntRange(1, 4).Draw(rt, "rounds")
 	var rounds []c18Round
@@ -214,8 +254,14 @@ func c18Case(rt *rapid.T, rec *vt.Rec, viaRPCNode bool) {
 		}
 		sp.mu.Lock()
 		sp.onUpdate = func(n int, req pool.UpdateRequest) (*pool.UpdateResponse, error) {
-			if updateErr {
+			if updateErr && !overHTTP {
 				return nil, updateFailure
+			}
+			if updateErr {
+				if _, isRPCErr := updateFailure.(*jsonrpc2.ErrResponse); isRPCErr {
+					return nil, updateFailure // travels as an error reply
+				}
+				// otherwise the exchange itself fails: the front answers in the pool's place (set below)
 			}
 			return &pool.UpdateResponse{ActivePeers: append([]string{}, activeURIs...), InvalidPeers: append([]string{}, invalid...)}, nil
 		}
@@ -247,13 +293,21 @@ func c18Case(rt *rapid.T, rec *vt.Rec, viaRPCNode bool) {
 		}
 		takeNodeCalls()
 		sp.take()
+		if overHTTP {
+			httpMu.Lock()
+			httpFault = ""
+			if _, isRPCErr := updateFailure.(*jsonrpc2.ErrResponse); updateErr && !isRPCErr {
+				httpFault = rapid.SampledFrom([]string{"empty200", "status204", "html"}).Draw(rt, "httpFault")
+			}
+			httpMu.Unlock()
+		}
 		// --- run the round
 		var err error
 		if r == 0 {
-			err = a.Start(sp)
+			err = a.Start(thePool)
 			running = err == nil
 		} else {
-			err = a.UpdatePeers(context.Background(), sp)
+			err = a.UpdatePeers(context.Background(), thePool)
 		}
 		calls := takeNodeCalls()
 		pcalls := sp.take()
@@ -455,4 +509,17 @@ func TestC18AgentRoundRPCNode(t *testing.T) {
 	rec := vt.For("C18")
 	rec.Rule("same round model with the node behind go-ethereum's in-process RPC server and the repository's geth / parity node adapters (admin_peers, admin_addPeer/removePeer/addTrustedPeer/removeTrustedPeer, parity_netPeers with an inactive peer to be filtered, parity_addReservedPeer/removeReservedPeer); the oracle compares the node ids extracted from the recorded RPC arguments")
 	rapid.Check(t, func(rt *rapid.T) { c18Case(rt, rec, true) })
+}
+
+// ScriptPoolRPC exposes a scriptPool under the pool's RPC signatures (the signature parameters are not checked).
+type ScriptPoolRPC struct{ p *scriptPool }
+
+func (s *ScriptPoolRPC) Connect(ctx context.Context, sig, id string, nonce int64, req pool.ConnectRequest) (*pool.ConnectResponse, error) {
+	return s.p.Connect(ctx, req)
+}
+func (s *ScriptPoolRPC) Update(ctx context.Context, sig, id string, nonce int64, req pool.UpdateRequest) (*pool.UpdateResponse, error) {
+	return s.p.Update(ctx, req)
+}
+func (s *ScriptPoolRPC) Peer(ctx context.Context, sig, id string, nonce int64, req pool.PeerRequest) (*pool.PeerResponse, error) {
+	return s.p.Peer(ctx, req)
 }
